@@ -30,7 +30,8 @@ CHECK = 'check_case'
 SHARD_SIZE = 70
 RULE = ('1..2 generated module classes (2..6 accessibles out of value/target/p1..p3/opt1/cmd with datatypes float, int, '
         'scaled, bool, enum, string, blob, array of int/float/string, struct; class-level default/value/needscfg/readonly/export/'
-        'visibility/group/missing description; read/write driver methods, a write method may take over the pending start '
+        'visibility/group/missing description; a quarter of the classes apply their main unit only in startModule (deferred '
+        'main unit pattern; the description after start-up must show the substituted units); read/write driver methods, a write method may take over the pending start '
         'values of other parameters (pops them from self.writeDict and calls their write methods, like '
         'frappy.rwhandler.CommonWriteHandler); optional custom mandatory module property) x '
         '1..3 config files with 1..3 Mod() sections each (overlapping names -> merging) x per accessible one of: not '
@@ -224,6 +225,20 @@ def build_class(cd, idx):
         _EVENTS.append(['initialReads', self.name])
     ns['doPoll'] = doPoll
     ns['initialReads'] = initialReads
+    if cd.get('deferred_unit'):
+        # the "deferred main unit" pattern (frappy_mlz.entangle, test_modules.test_deferred_main_unit): the main unit is
+        # only known when the hardware is contacted - applyMainUnit is postponed to startModule.  Server._processCfg
+        # describes the node BEFORE startModule; a describe reply after start-up must still show the substituted units
+        def applyMainUnit(self, mainunit):
+            self._c10_mainunit = mainunit
+
+        def startModule(self, start_events):
+            mu = getattr(self, '_c10_mainunit', None)
+            if mu:
+                Module.applyMainUnit(self, mu)
+            Module.startModule(self, start_events)
+        ns['applyMainUnit'] = applyMainUnit
+        ns['startModule'] = startModule
     return type(f'C{idx}', (Module,), ns)
 
 
@@ -813,7 +828,7 @@ def gen_class(rng):
                        'optional': True, 'readonly': True})
     r = rng.random()
     return {'params': params, 'custom': 'mand' if r < 0.15 else 'opt' if r < 0.3 else None,
-            'enablepoll': rng.random() < 0.85, 'takeover': takeover}
+            'enablepoll': rng.random() < 0.85, 'takeover': takeover, 'deferred_unit': rng.random() < 0.25}
 
 
 def gen_props(rng, p, n):
